@@ -3,6 +3,7 @@ fresh processes with a different hash seed, perturbed heap, the SD wait-queue ba
 traces must be identical (and identical to the model's single trace)."""
 import json
 import os
+import re
 import subprocess
 
 import dsl
@@ -14,7 +15,7 @@ PID = 'C02'
 TAGS = ['abegin', 'awaited', 'got', 'lenter', 'levels', 'benter', 'tick', 'caught', 'taskret', 'tfin', 'sexit', 'now']
 RULE = ('random whole-API programs (timers, flags, tracked values, locks, queues, channels, resources, scopes, cancels; plus '
         'many waiters on one tracked value / resource, several equal-date conditions armed through one connective and watched separately, '
-        'a float-time profile with non-dyadic dates) run in-process and in 4 (quick) / 8 (thorough) other configurations '
+        '6-12 distinct dates pending at once and requested in arbitrary order, a float-time profile with non-dyadic dates) run in-process and in 4 (quick) / 8 (thorough) other configurations '
         '{PYTHONHASHSEED, junk allocations, USIM_WAITQUEUE=SD, python -O}; every configuration must give the same trace as the '
         'in-process run, which must equal the model trace; non-trivial = at least 4 events from at least 2 activities')
 
@@ -67,6 +68,10 @@ CONFIGS = [
 ]
 
 
+#: an AssertionError (code 9) reached a task, a handler or a clean-up block: the program violated a usage assertion
+ASSERTION_SEEN = re.compile(r':(tfin:3,|caught:|cleanup:1,)([0-9-]+,)*9(,|;|$)')
+
+
 def run_config(name, env_extra, pyflags, scenarios):
     env = dict(os.environ, PYTHONPATH=REPO, USIM_VERIF_REPO=REPO)
     env.pop('USIM_WAITQUEUE', None)
@@ -96,6 +101,9 @@ def run(tier, seed, drv, scenarios=None):
             rng = rng_for(seed, PID, i)
             if i % 8 == 0:
                 scenarios.append(('rat', connective_family(rng)))
+            elif i % 8 == 1:
+                # 6-12 distinct dates pending at once, requested in arbitrary order (the backends order them differently inside)
+                scenarios.append(('rat', c01.crowd_scenario(rng)))
             elif i % 4 == 0:
                 scenarios.append(('rat', tracked_family(rng)))
             elif i % 4 == 3:
@@ -116,7 +124,8 @@ def run(tier, seed, drv, scenarios=None):
         for (kind, sc, ref), line in zip(batch, lines):
             st.res.evaluations += 1
             # assertion mode: programs that violate a usage assertion are excluded by the statement
-            if '-O' in pyflags and ('crash 9' in ref or 'crash 9' in line or ',9' in ref.split('|')[1]):
+            if '-O' in pyflags and ('crash 9' in ref or 'crash 9' in line or ',9' in ref.split('|')[1]
+                                    or ASSERTION_SEEN.search(ref.split('|')[0]) or ASSERTION_SEEN.search(line.split('|')[0])):
                 continue
             if line != ref:
                 ev_a, ev_b = ref.split('|')[0].split(';'), line.split('|')[0].split(';')
